@@ -392,3 +392,45 @@ class Index:
             if mm and name in mm.funcs:
                 return mm.funcs[name]
         return None
+
+
+_ID_RE = None
+
+
+def alpha_eq(a: str, b: str) -> bool:
+    """Textual alpha-equivalence of two normalised constructs: identical token sequences up to a
+    bijective renaming of *variable* identifiers.  Identifiers that are called (`f(`), that are
+    attributes (`.x`), keywords and capitalised names (classes / ADT modules) must be equal."""
+    import keyword
+    import re
+
+    global _ID_RE
+    if _ID_RE is None:
+        _ID_RE = re.compile(r"[A-Za-z_][A-Za-z_0-9]*|\s+|.", re.S)
+    ta = [t for t in _ID_RE.findall(a) if not t.isspace()]
+    tb = [t for t in _ID_RE.findall(b) if not t.isspace()]
+    if len(ta) != len(tb):
+        return False
+    fwd: Dict[str, str] = {}
+    bwd: Dict[str, str] = {}
+    for i, (x, y) in enumerate(zip(ta, tb)):
+        xi = x[0].isalpha() or x[0] == "_"
+        yi = y[0].isalpha() or y[0] == "_"
+        if xi != yi:
+            return False
+        if not xi:
+            if x != y:
+                return False
+            continue
+        fixed = (
+            keyword.iskeyword(x) or keyword.iskeyword(y) or x[0].isupper() or y[0].isupper()
+            or (i + 1 < len(ta) and ta[i + 1] == "(") or (i > 0 and ta[i - 1] == ".")
+            or x in ("self", "cls", "True", "False", "None")
+        )
+        if fixed:
+            if x != y:
+                return False
+            continue
+        if fwd.setdefault(x, y) != y or bwd.setdefault(y, x) != x:
+            return False
+    return True
